@@ -43,7 +43,7 @@ def get_core_features(feature_model: FeatureModel) -> list[Feature]:
     while features:
         feature = features.pop()
         for relation in feature.get_relations():
-            if relation.is_mandatory():
+            if relation.card_min == len(relation.children):  # every child is always selected
                 core_features.extend(relation.children)
                 features.extend(relation.children)
 
